@@ -234,12 +234,15 @@ func byzWinsBeacon(sc *Scenario, round uint64) string {
 
 var (
 	hon4split = sc("hon4-split", eq4, -1, nil, "b2", 3, []string{"aa", "a", "f", ""})
-	hon4pref  = sc("hon4-prefix", eq4, -1, nil, "b1", 3, []string{"aa", "aa", "a", "a"})
-	w5lag     = sc("w5-lag-byz", []int64{2, 2, 2, 1, 1}, 4, nil, "b0", 3, []string{"aa", "a", "af", "a", ""})
-	triBound  = sc("tri-boundary", []int64{21845, 21845, 21844}, 2, nil, "b0", 2, []string{"aa", "f", ""})
-	eq4part   = sc("eq4-partition", eq4, 3, nil, "b1", 2, []string{"aa", "a", "f", ""})
-	eq4slow   = sc("eq4-slow-links", eq4, 3, nil, "b2", 3, []string{"aa", "aa", "a", ""})
-	eq6slow   = func() *Scenario {
+	// the fourth member votes QUALITY(a), PREPARE(base), COMMIT(bottom) and crashes (round 0 fails: everybody commits bottom);
+	// the third, whose input diverges, starts while the other two are preparing in round 1 and need it
+	eq4crash = sc("eq4-crash-late-diverging", eq4, 3, nil, "b0", 4, []string{"a", "a", "f", ""})
+	hon4pref = sc("hon4-prefix", eq4, -1, nil, "b1", 3, []string{"aa", "aa", "a", "a"})
+	w5lag    = sc("w5-lag-byz", []int64{2, 2, 2, 1, 1}, 4, nil, "b0", 3, []string{"aa", "a", "af", "a", ""})
+	triBound = sc("tri-boundary", []int64{21845, 21845, 21844}, 2, nil, "b0", 2, []string{"aa", "f", ""})
+	eq4part  = sc("eq4-partition", eq4, 3, nil, "b1", 2, []string{"aa", "a", "f", ""})
+	eq4slow  = sc("eq4-slow-links", eq4, 3, nil, "b2", 3, []string{"aa", "aa", "a", ""})
+	eq6slow  = func() *Scenario {
 		s := sc("eq6-two-thirds-view", []int64{1, 1, 1, 1, 1, 1}, 5, nil, "", 2, []string{"a", "a", "a", "a", "a", ""})
 		s.Beacon = byzWinsBeacon(s, 1)
 		return s
@@ -256,6 +259,9 @@ func policyPlans(thorough bool) []policyPlan {
 		// Byzantine member adds) is waiting in its queue when it starts
 		{w5lag, Policy{Kind: "latestart", Lagger: 3}, true, false},
 		{hon4pref, Policy{Kind: "latestart", Lagger: 1, FlushRound: 1}, false, false},
+		// a member with a diverging input starts while the others are already preparing in round 1 after a failed round
+		// 0: it finds their round-1 messages queued and must still get to a decision with them
+		{eq4crash, Policy{Kind: "latestart", Lagger: 2, FlushRound: 1, FlushPhase: gpbft.PREPARE_PHASE, Prelude: []string{"0.1.0.=a", "0.3.0.=", "0.4.0._"}}, false, false},
 		{triBound, Policy{Kind: "partition", Groups: [][]int{{0}, {1}}, Echo: true, HealAfter: 0}, true, false},
 		{eq4part, Policy{Kind: "partition", Groups: [][]int{{0}, {1, 2}}, Echo: true, HealAfter: 120}, true, false},
 	}
@@ -291,7 +297,7 @@ var hon4odd = func() *Scenario {
 }()
 
 func scenarioByName(name string) *Scenario {
-	for _, s := range append(append(append(coreScenarios(), moreScenarios()...), byzOnlyScenarios()...), hon4split, hon4pref, w5lag, triBound, eq4part, eq4slow, hon4odd, eq6slow) {
+	for _, s := range append(append(append(coreScenarios(), moreScenarios()...), byzOnlyScenarios()...), hon4split, hon4pref, eq4crash, w5lag, triBound, eq4part, eq4slow, hon4odd, eq6slow) {
 		if s.Name == name {
 			return s
 		}
